@@ -39,8 +39,37 @@ func init() {
 		// toolchain's unicode.SimpleFold exactly as the function does.
 		return hx(c17StrToFold(unhx(a[0])))
 	}
+	// directory entry points called with a SPELLED directory argument (see c17Spellings): the same tree on
+	// disk, named by a path that is not necessarily in filepath.Clean form.  The reported file system paths are
+	// dir joined with the relative path, i.e. they start with the clean form of the argument.
+	impls["zip.checkdirsp"] = func(a []string) string {
+		fs := zipuParseFiles(a[2])
+		tmp := zipuTemp()
+		defer os.RemoveAll(tmp)
+		root := filepath.Join(tmp, "root")
+		if err := zipuMkTree(root, fs); err != nil {
+			return "harness-error:" + hx(err.Error())
+		}
+		dir := c17SpellDir(root, a[0], fs)
+		cf, err := modzip.CheckDir(dir)
+		return zipuShowCf(cf, err, filepath.Clean(dir))
+	}
+	impls["zip.createfromdirsp"] = func(a []string) string {
+		fs := zipuParseFiles(a[4])
+		tmp := zipuTemp()
+		defer os.RemoveAll(tmp)
+		root := filepath.Join(tmp, "root")
+		if err := zipuMkTree(root, fs); err != nil {
+			return "harness-error:" + hx(err.Error())
+		}
+		var buf bytes.Buffer
+		if err := modzip.CreateFromDir(&buf, module.Version{Path: unhx(a[1]), Version: unhx(a[2])}, c17SpellDir(root, a[0], fs)); err != nil {
+			return zipuErrKind(err)
+		}
+		return zipuShowArchive(buf.Bytes())
+	}
 	register(&Prop{ID: "C17", Gen: genC17, Oracle: oracleC17,
-		Rule: "file lists and real directory trees of depth <=4 from name pools (go.mod case variants, vendor layouts, nested modules, VCS dirs, regular FILES named .git/.hg/.svn/.bzr/vendor/LICENSE/.hg_archival.txt at the root and 1-2 levels down with siblings sorting on both sides, .hg_archival.txt, LICENSE, fold-colliding names incl. K/k/U+212A and s/S/U+017F, Windows reserved names, names with \\ : space .. ./x /abs a//b, invalid UTF-8), modes (regular, dir, symlink, pipe, lstat error), fake sizes at 16MiB+-1 and 500MiB+-1, 17 go.mod contents; non-trivial = at least one file is omitted or invalid, or a go.mod selects the go version; distinct by op line"})
+		Rule: "file lists and real directory trees of depth <=4 from name pools (go.mod case variants, vendor layouts, nested modules, VCS dirs, regular FILES named .git/.hg/.svn/.bzr/vendor/LICENSE/.hg_archival.txt at the root and 1-2 levels down with siblings sorting on both sides, .hg_archival.txt, LICENSE, fold-colliding names incl. K/k/U+212A and s/S/U+017F, Windows reserved names, names with \\ : space .. ./x /abs a//b, invalid UTF-8), the directory argument of CheckDir/CreateFromDir spelled in 12 ways (clean, trailing separator(s), '.'/'..' elements, doubled separator, relative with and without './'), modes (regular, dir, symlink, pipe, lstat error), fake sizes at 16MiB+-1 and 500MiB+-1, 17 go.mod contents; non-trivial = at least one file is omitted or invalid, or a go.mod selects the go version; distinct by op line"})
 }
 
 func c17NonTrivial(out string) bool {
@@ -75,6 +104,13 @@ func genC17(g *Gen, n int) {
 		g.Emit("zip.checkdir "+c17DirGe124(fs)+" "+zipuDirFilesTok(fs), true, "special-file-sweep")
 		g.Emit("zip.createfromdir "+hx("example.com/m")+" "+hx("v1.0.0")+" "+c17DirGe124(fs)+" "+zipuDirFilesTok(fs), true, "special-file-sweep")
 	}
+	// the directory argument in every spelling, on a few fixed trees (class "directory not in clean form")
+	for _, fs := range c17SpellTrees() {
+		for _, k := range c17Spellings {
+			g.Emit("zip.checkdirsp "+k+" "+c17DirGe124(fs)+" "+zipuDirFilesTok(fs), true, "dir-spelling-sweep")
+			g.Emit("zip.createfromdirsp "+k+" "+hx("example.com/m")+" "+hx("v1.0.0")+" "+c17DirGe124(fs)+" "+zipuDirFilesTok(fs), true, "dir-spelling-sweep")
+		}
+	}
 	for i := 0; g.st.Ops < n; i++ {
 		switch k := g.Intn(100); {
 		case k < 50:
@@ -86,10 +122,18 @@ func genC17(g *Gen, n int) {
 			fs := zipuGenFiles(g.Rand, zipuGenOpts{realFS: true, honest: true})
 			c17Sparse(g.Rand, fs)
 			g.Emit("zip.checkdir "+c17DirGe124(fs)+" "+zipuDirFilesTok(fs), true, "checkdir")
+			if i%3 == 0 && c17SmallTree(fs) {
+				// the same tree through a directory argument that is not in clean form; the spelling is taken
+				// from the loop counter so that the random stream of the other cases is unchanged
+				g.Emit("zip.checkdirsp "+c17Spellings[1+(i/3)%(len(c17Spellings)-1)]+" "+c17DirGe124(fs)+" "+zipuDirFilesTok(fs), true, "checkdir-spelled")
+			}
 		case k < 80:
 			fs := zipuGenFiles(g.Rand, zipuGenOpts{realFS: true, honest: true})
 			mp, mv := zipuPickMod(g.Rand, 5)
 			g.Emit("zip.createfromdir "+hx(mp)+" "+hx(mv)+" "+c17DirGe124(fs)+" "+zipuDirFilesTok(fs), true, "createfromdir")
+			if i%2 == 0 && c17SmallTree(fs) {
+				g.Emit("zip.createfromdirsp "+c17Spellings[1+(i/2)%(len(c17Spellings)-1)]+" "+hx(mp)+" "+hx(mv)+" "+c17DirGe124(fs)+" "+zipuDirFilesTok(fs), true, "createfromdir-spelled")
+			}
 		case k < 88:
 			name := c17VendorName(g.Rand)
 			g.Emit("zip.isvendoredpackage "+hx(name)+" "+showBool(g.Bool()), true, "vendored")
@@ -210,6 +254,97 @@ func c17InjectSpecialFiles(r *Rand, fs []*zipuFile) []*zipuFile {
 		}
 	}
 	return fs
+}
+
+// ---- input class "directory argument not in filepath.Clean form" -----------------------------------
+//
+// CheckDir / CreateFromDir take the directory as a PATH; which files belong in the zip is a function of the
+// tree that path names, not of how the path is written.  filepath.Walk hands the root to the callback
+// verbatim but builds every other path with filepath.Join (which cleans), so code that relates the two
+// textually only works for arguments already in clean form.
+// Why it was missing: every directory op and the dir-vs-list oracle built the argument with filepath.Join
+// (clean, absolute).  The class spells the same on-disk directory in the ways a caller does: trailing
+// separator(s), a '.' element at the end or in the middle, a '..' element (through the parent and, where
+// the tree has one, through a sub-directory of the tree), a doubled separator, and relative to the working
+// directory with and without a leading "./" or a trailing separator.  "clean" is the control.
+var c17Spellings = []string{"clean", "trail", "trail2", "dotend", "dotmid", "dotdot", "subup", "dbl", "rel", "reltrail", "dotrel", "dotreltrail"}
+
+// c17SpellDir writes the path of the existing directory root (clean, absolute) in the given way.
+func c17SpellDir(root, kind string, fs []*zipuFile) string {
+	sep := string(filepath.Separator)
+	parent, base := filepath.Split(root) // parent ends in a separator
+	rel := func() string {
+		if cwd, err := os.Getwd(); err == nil {
+			if r, err := filepath.Rel(cwd, root); err == nil {
+				return r
+			}
+		}
+		return root
+	}
+	switch kind {
+	case "trail":
+		return root + sep
+	case "trail2":
+		return root + sep + sep
+	case "dotend":
+		return root + sep + "."
+	case "dotmid":
+		return parent + "." + sep + base
+	case "dotdot":
+		return root + sep + ".." + sep + base
+	case "subup":
+		// down into the first top-level sub-directory of the tree and up again
+		for _, f := range fs {
+			el := f.path
+			if i := strings.IndexByte(el, '/'); i >= 0 {
+				el = el[:i]
+			} else if f.mode != 'd' {
+				continue
+			}
+			if el == "" || el == "." || el == ".." {
+				continue
+			}
+			if info, err := os.Lstat(filepath.Join(root, el)); err == nil && info.IsDir() {
+				return root + sep + el + sep + ".." + sep
+			}
+		}
+		return root + sep + ".." + sep + base + sep
+	case "dbl":
+		return parent + sep + base
+	case "rel":
+		return rel()
+	case "reltrail":
+		return rel() + sep
+	case "dotrel":
+		return "." + sep + rel()
+	case "dotreltrail":
+		return "." + sep + rel() + sep
+	}
+	return root
+}
+
+// c17SpellTrees: the fixed trees of the spelling sweep: one with every kind of content the directory entry
+// points decide on (vendor layouts, a nested module, an unacceptable name, LICENSE), one without go.mod, the
+// empty tree, and one tree of the special-file family.
+func c17SpellTrees() [][]*zipuFile {
+	return [][]*zipuFile{
+		{c17Reg("go.mod", zipuGoMods[1]), c17Reg("m.go", "package m\n"), c17Reg("LICENSE", "free\n"), c17Reg("pkg/p.go", "package pkg\n"),
+			c17Reg("pkg/vendor/v.go", "package vendor\n"), c17Reg("vendor/modules.txt", "# x\n"), c17Reg("vendor/example.com/x.go", "package x\n"),
+			c17Reg("sub/go.mod", "module example.com/m/sub\n"), c17Reg("sub/s.go", "package sub\n"), c17Reg("bad name'.go", "package m\n")},
+		{c17Reg("a.go", "package a\n"), c17Reg("d/b.go", "package b\n"), c17Reg("d/e/c.go", "package c\n")},
+		nil,
+		c17SpecialFileTree(".git", "lib/", zipuGoMods[0]),
+	}
+}
+
+// c17SmallTree: no file of the tree is padded to a size limit (such trees are expensive to create twice).
+func c17SmallTree(fs []*zipuFile) bool {
+	for _, f := range fs {
+		if f.size > 1<<20 {
+			return false
+		}
+	}
+	return true
 }
 
 // c17Sparse occasionally turns one size-limited file of a real tree into a sparse file at the 16 MiB boundary.
@@ -572,6 +707,86 @@ func oracleC17(g *Gen, n int) {
 	for i := 0; i < n/6; i++ {
 		fs := zipuGenFiles(g.Rand, zipuGenOpts{realFS: true, plainOnly: true, noVCS: true, honest: true})
 		c17OracleDir(g, c17InjectSpecialFiles(g.Rand, fs))
+	}
+	// (3) on the class "directory argument not in clean form" (see c17Spellings): every spelling on the fixed
+	// trees, then two spellings on random trees.  Again in loops of their own at the end.
+	for _, fs := range c17SpellTrees() {
+		c17OracleDirSpelled(g, fs, c17Spellings)
+	}
+	for i := 0; i < n/6; i++ {
+		fs := zipuGenFiles(g.Rand, zipuGenOpts{realFS: true, plainOnly: true, noVCS: true, honest: true})
+		if i%4 == 0 {
+			fs = c17InjectSpecialFiles(g.Rand, fs)
+		}
+		c17OracleDirSpelled(g, fs, []string{c17Spellings[1+g.Intn(len(c17Spellings)-1)], c17Spellings[1+g.Intn(len(c17Spellings)-1)]})
+	}
+}
+
+// c17OracleDirSpelled: clause (3) with the directory named by a path in each of the given spellings.  The
+// file system paths CheckDir reports are dir joined with the relative path; they are compared after
+// filepath.Clean and with the clean form of dir removed.
+func c17OracleDirSpelled(g *Gen, fs []*zipuFile, kinds []string) {
+	tmp := zipuTemp()
+	defer os.RemoveAll(tmp)
+	root := filepath.Join(tmp, "root")
+	if err := zipuMkTree(root, fs); err != nil {
+		return
+	}
+	mp, mv := zipuPickMod(g.Rand, 3)
+	m := module.Version{Path: mp, Version: mv}
+	var list []*zipuFile
+	filepath.Walk(root, func(p string, info os.FileInfo, err error) error {
+		if err == nil && info.Mode().IsRegular() {
+			rel, _ := filepath.Rel(root, p)
+			data, _ := os.ReadFile(p)
+			list = append(list, &zipuFile{path: filepath.ToSlash(rel), mode: 'r', size: info.Size(), content: data})
+		}
+		return nil
+	})
+	cfl, errl := modzip.CheckFiles(zipuAsFiles(list))
+	var bl bytes.Buffer
+	el := modzip.Create(&bl, m, zipuAsFiles(list))
+	for _, k := range kinds {
+		dir := c17SpellDir(root, k, fs)
+		strip := filepath.Clean(dir)
+		line := "zip.checkdirsp " + k + " " + c17DirGe124(fs) + " " + zipuDirFilesTok(fs)
+		line2 := "zip.createfromdirsp " + k + " " + hx(mp) + " " + hx(mv) + " " + c17DirGe124(fs) + " " + zipuDirFilesTok(fs)
+		info := "directory argument spelled " + k
+		g.Case("dir-vs-list-spelled")
+		cfd, errd := modzip.CheckDir(dir)
+		vd := make([]string, len(cfd.Valid))
+		for i, v := range cfd.Valid {
+			vd[i] = filepath.ToSlash(zipuStrip(filepath.Clean(v), strip))
+		}
+		var id []modzip.FileError
+		for _, e := range cfd.Invalid {
+			id = append(id, modzip.FileError{Path: filepath.ToSlash(zipuStrip(filepath.Clean(e.Path), strip)), Err: e.Err})
+		}
+		if c17SetOf(vd) != c17SetOf(cfl.Valid) {
+			g.Fail("C17 dir-vs-list: CheckDir on a directory path not in clean form and CheckFiles report different valid files", info, line)
+			continue
+		}
+		if c17ErrSet(id, "") != c17ErrSet(cfl.Invalid, "") {
+			g.Fail("C17 dir-vs-list: CheckDir on a directory path not in clean form and CheckFiles report different invalid files", info, line)
+			continue
+		}
+		if (errd == nil) != (errl == nil) {
+			g.Fail("C17 dir-vs-list: CheckDir on a directory path not in clean form and CheckFiles do not fail together", info, line)
+			continue
+		}
+		g.Case("createfromdir-vs-create-spelled")
+		var bd bytes.Buffer
+		ed := modzip.CreateFromDir(&bd, m, dir)
+		if (ed == nil) != (el == nil) {
+			g.Fail("C17 dir-vs-list: CreateFromDir on a directory path not in clean form and Create do not succeed or fail together", info+": "+zipuErrKind(ed)+" vs "+zipuErrKind(el), line2)
+			continue
+		}
+		if ed == nil {
+			a, b := strings.Split(strings.TrimPrefix(zipuShowArchive(bd.Bytes()), "ok "), ","), strings.Split(strings.TrimPrefix(zipuShowArchive(bl.Bytes()), "ok "), ",")
+			if c17SetOf(a) != c17SetOf(b) {
+				g.Fail("C17 dir-vs-list: CreateFromDir on a directory path not in clean form and Create include different files or contents", info, line2)
+			}
+		}
 	}
 }
 
